@@ -8,9 +8,9 @@ package main
 
 import (
 	"fmt"
-	"os"
 	"go/token"
 	"go/types"
+	"os"
 )
 
 type wsEvent struct {
@@ -19,14 +19,18 @@ type wsEvent struct {
 }
 
 // runWriteToSim reports obligations under the given rule ids ("" = skip that clause).
-func runWriteToSim(c *Ctx, ruleClose, ruleCount, rulePromo, ruleSize, ruleDelta string) {
+func runWriteToSim(c *Ctx, ruleClose, ruleCount, rulePromo, ruleSize, ruleDelta string, ruleFailOpt ...string) {
+	ruleFail := ""
+	if len(ruleFailOpt) > 0 {
+		ruleFail = ruleFailOpt[0]
+	}
 	p := c.P
 	wt := p.Method("smf", "SMF", "WriteTo")
 	smfT := p.namedType("smf", "SMF")
 	evT := p.namedType("smf", "Event")
 	trackT := p.namedType("smf", "Track")
 	first := ruleClose
-	for _, r := range []string{ruleCount, rulePromo, ruleSize, ruleDelta} {
+	for _, r := range []string{ruleCount, rulePromo, ruleSize, ruleDelta, ruleFail} {
 		if first == "" {
 			first = r
 		}
@@ -48,8 +52,8 @@ func runWriteToSim(c *Ctx, ruleClose, ruleCount, rulePromo, ruleSize, ruleDelta 
 	}
 	eot := []Val{k8(0xFF), k8(0x2F), k8(0x00)}
 	tracks := [][]wsEvent{
-		{{0x81, []Val{k8(0x91), data("k1"), data("v1")}}, {0x4000, eot}},          // closed; two- and three-byte deltas
-		{{0x05, []Val{k8(0x82), data("k2"), data("v2")}}},                          // open: must be closed by WriteTo
+		{{0x81, []Val{k8(0x91), data("k1"), data("v1")}}, {0x4000, eot}},                                    // closed; two- and three-byte deltas
+		{{0x05, []Val{k8(0x82), data("k2"), data("v2")}}},                                                   // open: must be closed by WriteTo
 		{{0x00, []Val{k8(0xC3), data("p3")}}, {0x7F, []Val{k8(0xB3), data("c3"), data("w3")}}, {0x00, eot}}, // closed
 	}
 	var tvals []Val
@@ -132,15 +136,26 @@ func runWriteToSim(c *Ctx, ruleClose, ruleCount, rulePromo, ruleSize, ruleDelta 
 		why string
 	}
 	vClose, vCount, vPromo, vSize, vDelta := verdict{true, ""}, verdict{true, ""}, verdict{true, ""}, verdict{true, ""}, verdict{true, ""}
-	nSuccess := 0
+	nSuccess, nFailed := 0, 0
+	vFail := verdict{true, ""}
 	for _, o := range outs {
 		if o.Panic || len(problemEvents(o.St.Events)) > 0 {
 			vClose = verdict{false, "WriteTo may panic on the representative file: " + o.Msg + fmtEvents(problemEvents(o.St.Events))}
 			continue
 		}
 		ev, _ := o.Ret[1].(*IfaceV)
+		// C10: the destination rejected (part of) some Write on this path -> the call must end in a definite error
+		for _, e := range o.St.Events {
+			if e.Kind == "sim:write-failed" {
+				nFailed++
+				if ev == nil || ev.Nil || (ev.Unk && !ev.NonNil) {
+					vFail = verdict{false, "the destination failed at " + e.Pos + " (error or short write) and WriteTo returns " + valString(o.Ret[1]) + ": the failure is swallowed [" + outcomeWitness(o) + "]"}
+				}
+				break
+			}
+		}
 		if ev == nil || !ev.Nil {
-			continue // a destination failure: C10
+			continue // a destination failure
 		}
 		nSuccess++
 		ws := ex.writesOf(o)
@@ -258,6 +273,9 @@ func runWriteToSim(c *Ctx, ruleClose, ruleCount, rulePromo, ruleSize, ruleDelta 
 	if ruleDelta != "" {
 		c.Check(vDelta.ok && vCount.ok && nSuccess > 0, ruleDelta, "every event is written as VLQ(its own delta) followed by its bytes, exactly once (whole-file simulation)", p.Pos(wt.Pos()), desc+"; deltas of one, two and three VLQ bytes", vDelta.why+vCount.why)
 	}
+	if ruleFail != "" {
+		c.Check(vFail.ok && nFailed > 0 && nSuccess > 0, ruleFail, "a destination failure at any Write ends in an error (whole-file simulation)", p.Pos(wt.Pos()), fmt.Sprintf("%d outcomes in which some Write of the destination failed (every Write of header and track chunks, error or short count): all return a definite error; %d outcomes without failure return nil", nFailed, nSuccess), vFail.why)
+	}
 	if ruleSize != "" {
 		c.Check(vSize.ok && nSuccess > 0, ruleSize, "reported size = bytes handed to the destination (whole-file simulation)", p.Pos(wt.Pos()), desc, vSize.why)
 	}
@@ -279,4 +297,127 @@ func vlqConst(n int64) []Val {
 		out = append([]Val{mkConst(n&0x7F|0x80, 8, false)}, out...)
 	}
 	return out
+}
+
+// runWriteToSimRS: second representative file, written with running status ENABLED: the status byte of a channel message is
+// left out exactly when the previous event of the same track was a channel message with the same status; a sysex in
+// between, a meta event in between and a track boundary all force the status byte out again. Expected bytes are
+// written from SMF 1.0, the file goes through the real WriteTo in the abstract interpreter.
+func runWriteToSimRS(c *Ctx, rule string) {
+	p := c.P
+	wt := p.Method("smf", "SMF", "WriteTo")
+	smfT := p.namedType("smf", "SMF")
+	evT := p.namedType("smf", "Event")
+	trackT := p.namedType("smf", "Track")
+	if wt == nil || smfT == nil || evT == nil || trackT == nil {
+		c.Unk(rule, "WriteTo simulation anchors", "-", "not resolved")
+		return
+	}
+	ex := NewExec(p)
+	ex.WriterContract = true
+	ex.Unroll = 10
+	st := ex.NewState()
+	k8 := func(v int64) Val { return mkConst(v, 8, false) }
+	data := func(n string) *IntV {
+		s := ex.syms.Get(n, 8, false)
+		st.refineSym(s, 0, 127)
+		return mkSym(s)
+	}
+	eot := []Val{k8(0xFF), k8(0x2F), k8(0x00)}
+	k1, v1, k2, v2, k3, v3, k4, v4, k5, v5, a, b := data("k1"), data("v1"), data("k2"), data("v2"), data("k3"), data("v3"), data("k4"), data("v4"), data("k5"), data("v5"), data("a"), data("b")
+	type ev struct {
+		delta int64
+		msg   []Val
+		wire  []Val // expected bytes after the delta
+	}
+	tracks := [][]ev{
+		{
+			{0, []Val{k8(0x91), k1, v1}, []Val{k8(0x91), k1, v1}},
+			{1, []Val{k8(0x91), k2, v2}, []Val{k2, v2}}, // same status: elided
+			{2, []Val{k8(0xF0), a, b, k8(0xF7)}, []Val{k8(0xF0), k8(3), a, b, k8(0xF7)}},
+			{3, []Val{k8(0x91), k3, v3}, []Val{k8(0x91), k3, v3}}, // after a sysex the status is written again
+			{4, []Val{k8(0xFF), k8(0x06), k8(0x00)}, []Val{k8(0xFF), k8(0x06), k8(0x00)}},
+			{5, []Val{k8(0x91), k4, v4}, []Val{k8(0x91), k4, v4}}, // after a meta event as well
+			{6, eot, eot},
+		},
+		{
+			{0, []Val{k8(0x91), k5, v5}, []Val{k8(0x91), k5, v5}}, // a new track starts with a status byte
+			{0, eot, eot},
+		},
+	}
+	var tvals []Val
+	for _, tr := range tracks {
+		var evVals []Val
+		for _, e := range tr {
+			v := ex.zeroOf(evT).(*StructV)
+			v.Fields[fieldIndex(v.T, "Delta")] = mkConst(e.delta, 32, false)
+			v.Fields[fieldIndex(v.T, "Message")] = ex.mkBytes(st, "m", e.msg, false, 0)
+			evVals = append(evVals, v)
+		}
+		tid := ex.newObj(st, &ArrayV{Elem: evT, Segs: []Seg{{Elems: evVals}}}, nil)
+		n := mkConst(int64(len(tr)), 64, true)
+		tvals = append(tvals, &SliceV{Obj: tid, Off: mkConst(0, 64, true), Len: n, Cap: n})
+	}
+	tsid := ex.newObj(st, &ArrayV{Elem: trackT, Segs: []Seg{{Elems: tvals}}}, nil)
+	nT := mkConst(int64(len(tracks)), 64, true)
+	sp := ex.newZeroObject(st, smfT)
+	okSet := ex.setField(st, sp, "Tracks", &SliceV{Obj: tsid, Off: mkConst(0, 64, true), Len: nT, Cap: nT}) &&
+		ex.setField(st, sp, "format", mkConst(1, 16, false)) &&
+		ex.setField(st, sp, "NoRunningStatus", &BoolV{Known: true, Val: false}) &&
+		ex.setField(st, sp, "TimeFormat", &IfaceV{Dyn: p.namedType("smf", "MetricTicks"), V: mkConst(480, 16, false)})
+	if !okSet {
+		c.Unk(rule, "WriteTo simulation (running status): fields of SMF", "-", "not resolved")
+		return
+	}
+	outs := ex.Call(st, wt, []Val{sp, &IfaceV{Unk: true, NonNil: true}}, nil)
+	if ex.Budget || len(outs) == 0 {
+		c.Unk(rule, "WriteTo simulation (running status)", p.Pos(wt.Pos()), "abstract interpretation did not complete")
+		return
+	}
+	for u := range ex.Unsupported {
+		c.Unk(rule, "WriteTo simulation (running status): "+u, p.Pos(wt.Pos()), "unmodelled construct on the write path")
+		return
+	}
+	ok, why, nSucc := true, "", 0
+	for _, o := range outs {
+		if o.Panic || len(problemEvents(o.St.Events)) > 0 {
+			ok, why = false, "WriteTo may panic: "+o.Msg+fmtEvents(problemEvents(o.St.Events))
+			continue
+		}
+		if ev, _ := o.Ret[1].(*IfaceV); ev == nil || !ev.Nil {
+			continue
+		}
+		nSucc++
+		var all []Val
+		for _, w := range ex.writesOf(o) {
+			el, okf := flatElems(w)
+			if !okf {
+				ok, why = false, "written bytes not tracked"
+			}
+			all = append(all, el...)
+		}
+		pos := 14
+		for ti, tr := range tracks {
+			var want []Val
+			for _, e := range tr {
+				want = append(want, vlqConst(e.delta)...)
+				want = append(want, e.wire...)
+			}
+			got := all[minInt(pos+8, len(all)):minInt(pos+8+len(want), len(all))]
+			same := len(got) == len(want)
+			for i := 0; same && i < len(want); i++ {
+				gi, _ := got[i].(*IntV)
+				same = gi != nil && o.St.sameInt(gi, want[i].(*IntV))
+			}
+			if !same {
+				ok, why = false, fmt.Sprintf("track %d is written as %s, SMF 1.0 running status gives %s (status elided only after a channel message with the same status; written again after sysex, meta and at the start of a track)", ti, arrayStringIn(o.St, &ArrayV{Segs: []Seg{{Elems: all[minInt(pos+8, len(all)):minInt(pos+8+len(want)+3, len(all))]}}}), arrayStringIn(o.St, &ArrayV{Segs: []Seg{{Elems: want}}}))
+				break
+			}
+			pos += 8 + len(want)
+		}
+		if ok && pos != len(all) {
+			ok, why = false, "bytes after the last track chunk"
+		}
+	}
+	c.Check(ok && nSucc > 0, rule, "running status end to end (whole-file simulation, compression on)", p.Pos(wt.Pos()), "2 tracks: same-status run, sysex, meta and track boundary; written bytes equal the SMF 1.0 running-status encoding", why)
 }
